@@ -850,6 +850,23 @@ def _sched_case(rec: Rec, label: str, rp: dict, shrink: bool):
     for k in r["compared"]:
         for i in range(len(rp["plan"][k]["acts"]) + 1):
             rec.case({"k": "sched", "sc": label, "d": r["digests"][k], "ep": k, "i": i}, True)
+    # a difference caused by the past is reproducible: run the differing episode's comparison once more. A difference that does not come
+    # back at the same place is wall-clock / entropy nondeterminism of a single run (C03's F-9 family), counted and noted, not a C04 verdict
+    confirmed = []
+    for k, d in r["diffs"]:
+        try:
+            again = dict(_run_sched_replay({**rp, "plan": rp["plan"][: k + 1], "only": [k]})["diffs"]).get(k)
+        except Exception:
+            again = d
+        if again is not None and (again["index"], again["component"]) == (d["index"], d["component"]):
+            confirmed.append((k, d))
+        else:
+            rec.count("sched:difference-not-reproducible")
+            rec.notes.append(f"schedule-freshness {label}: episode {k} differed once at record {d['index']} {d['component']} {d.get('path', '')} "
+                             f"({d.get('a')} vs {d.get('b')}) and not when the same comparison was repeated: nondeterminism of one run, not history")
+        if confirmed:
+            break
+    r["diffs"] = confirmed
     bad = {k for k, _ in r["diffs"]}
     for k, d in r["diffs"][:1]:
         small = rp
